@@ -989,10 +989,20 @@ def n2(ctx):
                       % (inst(f), bad[0].kids[0].text(3) if bad and bad[0].kids else '?'),
                       (bad[0].loc if bad else f.loc))
             # and the caller subtracts it
-            uses = [n_ for n_ in f.body.walk() if n_.kind == 'CompoundAssignOperator' and n_.op == '-='
-                    and member_path(n_.kids[0]) == 'cur']
-            okc = bool(uses) and all(any((c.callee_name() == 'operator()') for c in calls_in(u.kids[1]))
-                                     for u in uses)
+            # every call of the per-child step is `<cursor> -= step(<cursor>, ...)`
+            parent = enclosing_map(f.body)
+            lam_calls = [c for c in f.body.find('CXXOperatorCallExpr')
+                         if c.callee_name() == 'operator()' and len(c.kids) >= 3 and
+                         'lambda' in (c.kids[1].type or '')]
+            okc = bool(lam_calls)
+            for c in lam_calls:
+                p_ = parent.get(id(c))
+                while p_ is not None and p_.kind not in ('CompoundAssignOperator', 'CompoundStmt', 'ForStmt'):
+                    p_ = parent.get(id(p_))
+                if not (p_ is not None and p_.kind == 'CompoundAssignOperator' and p_.op == '-=' and
+                        member_path(p_.kids[0]) is not None and
+                        member_path(p_.kids[0]) == member_path(strip_casts(c.kids[2]))):
+                    okc = False
             ctx.check('%s/cur-advances-by-callee-count' % short(f).split('::')[-1], okc,
                       '%s: `cur` moves back by the count each child reports' % inst(f),
                       '%s: `cur` is not advanced by the value returned for the child' % inst(f), f.loc)
